@@ -42,7 +42,8 @@ pub enum BlindSignature<S: Scheme> {
     #[cfg(feature = "cl03")]
     /// CL03 signature variant
     CL03(CL03BlindSignature),
-    /// Unreachable variant to satisfy the type system
+    /// Unreachable variant to satisfy the type system (never serialized or deserialized)
+    #[serde(skip)]
     _Unreachable(std::marker::PhantomData<S>),
 }
 
@@ -55,7 +56,8 @@ pub enum Commitment<S: Scheme> {
     #[cfg(feature = "cl03")]
     /// CL03 commitment variant
     CL03(CL03Commitment),
-    /// Unreachable variant to satisfy the type system
+    /// Unreachable variant to satisfy the type system (never serialized or deserialized)
+    #[serde(skip)]
     _Unreachable(std::marker::PhantomData<S>),
 }
 
@@ -68,7 +70,8 @@ pub enum PoKSignature<S: Scheme> {
     #[cfg(feature = "cl03")]
     /// CL03 proof of knowledge signature variant
     CL03(CL03PoKSignature),
-    /// Unreachable variant to satisfy the type system
+    /// Unreachable variant to satisfy the type system (never serialized or deserialized)
+    #[serde(skip)]
     _Unreachable(PhantomData<S>),
 }
 
@@ -81,7 +84,8 @@ pub enum ZKPoK<S: Scheme> {
     ///CL03 zero-knowledge proof of knowledge variant
     #[cfg(feature = "cl03")]
     CL03(CL03ZKPoK),
-    /// Unreachable variant to satisfy the type system
+    /// Unreachable variant to satisfy the type system (never serialized or deserialized)
+    #[serde(skip)]
     _Unreachable(PhantomData<S>),
 }
 
@@ -94,6 +98,7 @@ pub enum Signature<S: Scheme> {
     #[cfg(feature = "cl03")]
     /// CL03 signature variant
     CL03(CL03Signature),
-    /// Unreachable variant to satisfy the type system
+    /// Unreachable variant to satisfy the type system (never serialized or deserialized)
+    #[serde(skip)]
     _Unreachable(PhantomData<S>),
 }
